@@ -137,6 +137,12 @@ type World struct {
 	deadCh   chan struct{}
 }
 
+// FreeLockHook, when set, is called in Free mode before a vsync.Mutex is locked (by the goroutine
+// that is about to lock it).  The cluster simulator uses it to hold a connection handler at a lock
+// for a while: the one place where a free-running goroutine of the server can be delayed between two
+// of its steps.
+var FreeLockHook func(obj interface{})
+
 // W is the current world.  One world is live at a time per process.
 var W *World
 
